@@ -8,7 +8,7 @@ HARNESS = os.path.join(flexrun.VERIF, 'harness')
 
 class Config:
     def __init__(self, backend='nr', topt=('-Cem',), interactive=None, array=False, reject=False,
-                 yymore=False, stack=False, lineno=False, eof_scs=(), sanitize=True, stdio=False, ledger=False):
+                 yymore=False, stack=False, lineno=False, eof_scs=(), sanitize=True, stdio=False, ledger=False, tables=None, prefix=None):
         self.backend = backend
         self.topt = list(topt)
         self.interactive = interactive      # None / True / False
@@ -21,6 +21,8 @@ class Config:
         self.sanitize = sanitize
         self.stdio = stdio
         self.ledger = ledger
+        self.tables = tables          # None | 'file' | 'verify'
+        self.prefix = prefix
 
     def key(self):
         return '%s %s I=%s arr=%d rej=%d more=%d stk=%d ln=%d eof=%s stdio=%d led=%d' % (
@@ -40,6 +42,8 @@ def lex_text(rs, cfg, rng, vary=True):
         defs.append('#define FV_STDIO 1')
     if cfg.ledger:
         defs.append('#define FV_LEDGER 1')
+    if cfg.tables:
+        defs.append('#define FV_TABLES 1')
     top = '%top{\n' + '\n'.join(defs) + '\n#include "fvh.h"\n}\n'
     opts = []
     if cfg.backend == 'r':
@@ -56,6 +60,8 @@ def lex_text(rs, cfg, rng, vary=True):
         opts.append('yylineno')
     if cfg.ledger:
         opts += ['noyyalloc', 'noyyrealloc', 'noyyfree']
+    if cfg.prefix:
+        opts.append('prefix="%s"' % cfg.prefix)
     if cfg.interactive is True:
         opts.append('interactive')
     elif cfg.interactive is False:
@@ -81,14 +87,28 @@ def build_scanner(flex, flexsrc, workdir, name, rs, cfg, lex_seed=0, flex_timeou
     text = lex_text(rs, cfg, rng)
     open(lf, 'w', encoding='latin1').write(text)
     opts = list(cfg.topt) + ['-8' if rs.csize == 256 else '-7']
+    tpath = None
+    if cfg.tables:
+        tpath = os.path.join(workdir, name + '.tables')
+        opts.append('--tables-file=' + tpath)
+        if cfg.tables == 'verify':
+            opts.append('--tables-verify')
     rc, so, se = flexrun.run_flex(flex, lf, cf, opts, timeout=flex_timeout)
     b = {'lex': text, 'opts': opts, 'flex_rc': rc, 'flex_stderr': se[-3000:], 'lfile': lf, 'cfile': cf,
-         'exe': exe, 'cfg': cfg.key()}
+         'exe': exe, 'cfg': cfg.key(), 'tables_path': tpath}
     if rc != 0:
         b['status'] = 'slow' if rc == -999 else 'flexfail'
         return b
     ctext = open(cf, encoding='latin1').read()
     tl, t, flags = flexrun.table_lines(ctext)
+    if cfg.tables == 'file':
+        # the automaton is not in the C file: decode the serialized tables with the Lean codec
+        sets = flexrun.parse_tables_file(tpath)
+        b['table_sets'] = [{k: v for k, v in s_.items() if k != 'tables'} for s_ in sets]
+        if sets and not sets[0].get('undecodable'):
+            A = flexrun.arrays_of_set(sets[0])
+            tl, flags = flexrun.table_lines_from_arrays(A, t['consts'])
+            t = {'arrays': A, 'consts': t['consts']}
     b['table_lines'] = tl
     b['flags'] = flags
     b['var_rules'] = flexrun.var_rules_of(t)
@@ -105,7 +125,7 @@ def build_scanner(flex, flexsrc, workdir, name, rs, cfg, lex_seed=0, flex_timeou
 
 
 def case_text(rs, build, cfg, srcs, main, acts=None, wraps=None, sched=None, bufsize=16384,
-              maxevents=20000, eofact=None, eacts=None, readerr=None, eintr=None, allocfail=None):
+              maxevents=20000, eofact=None, eacts=None, readerr=None, eintr=None, allocfail=None, tfiles=None):
     lines = rs.case_lines(build.get('var_rules', ())) + build['table_lines']
     for i, s in enumerate(srcs):
         lines.append('src %d %s' % (i, bytes(s).hex()))
@@ -118,6 +138,8 @@ def case_text(rs, build, cfg, srcs, main, acts=None, wraps=None, sched=None, buf
     lines.append('reentrant %d' % (1 if cfg.backend in ('r', 'c99') else 0))
     if cfg.eof_scs:
         lines.append('eofscs ' + ' '.join(str(s) for s in cfg.eof_scs))
+    for i, pth in enumerate(tfiles or []):
+        lines.append('tfile %d %s' % (i, pth))
     if readerr:
         lines.append('readerr ' + ' '.join(str(x) for x in readerr))
     if eintr:
